@@ -49,9 +49,20 @@ suite = "100% tests passed" in rb.stdout
 print("seed %s: demo(original)=%d demo(changed)=%d suite_passes=%s  [%s]" % (sid, demo_orig, demo_mut, suite, cc))
 valid = demo_orig == 0 and demo_mut != 0 and suite
 results = {}
+fast = "--fast" in sys.argv      # regression mode: first only the shard that reported the seed last time, the whole check if that is silent
+old_meta = {}
+if os.path.exists(os.path.join(VERIF, "seeded", sid, "meta.json")):
+    old_meta = json.load(open(os.path.join(VERIF, "seeded", sid, "meta.json")))
 for c in checks:
     t0 = time.time()
-    rr = subprocess.run(["python3", os.path.join(VERIF, "check.py"), c, "--tier", tier], capture_output=True, text=True, env=dict(os.environ, CAT_REPO=d))
+    rr = None
+    m = re.match(r"shard ([^:]+):", old_meta.get("checks", {}).get(c, {}).get("first", ""))
+    if fast and m:
+        rr = subprocess.run(["python3", os.path.join(VERIF, "check.py"), c, "--tier", tier, "--only", m.group(1)], capture_output=True, text=True, env=dict(os.environ, CAT_REPO=d))
+        if rr.returncode != 1:
+            rr = None
+    if rr is None:
+        rr = subprocess.run(["python3", os.path.join(VERIF, "check.py"), c, "--tier", tier], capture_output=True, text=True, env=dict(os.environ, CAT_REPO=d))
     first = [l for l in rr.stdout.splitlines() if l.strip().startswith("shard")][:1]
     results[c] = {"rc": rr.returncode, "first": first[0].strip()[:300] if first else rr.stdout.strip().splitlines()[-1][:300] if rr.stdout.strip() else ""}
     print("   %s rc=%d %.0fs %s" % (c, rr.returncode, time.time() - t0, results[c]["first"]))
@@ -71,7 +82,7 @@ if keep and valid:
         old_checks = old.get("checks", {})
         old_checks.update(results)
         meta["checks"] = old_checks
-        for k in ("needs_to_manifest", "summary", "source", "domain_note"):
+        for k in ("needs_to_manifest", "summary", "source", "domain_note", "not_reported_note"):
             if k in old:
                 meta[k] = old[k]
     json.dump(meta, open(mp, "w"), indent=1)
